@@ -19,4 +19,23 @@ def request_and_reply(m, p):
     ek = {"TRANSITION_EQUATION": "T", "MEASUREMENT_EQUATION": "M", "STEADY_AUTOVALUES": "A"}
     req_e = "port e " + "@".join(f"{ek[d.kind.name]};{d.human};{s.human}" for d, s in zip(inv.dynamic_equations, inv.steady_equations))
     rep_e = "@".join(f"{k};{d};{'None' if s is None else s}" for k, d, s, desc, a in p["source"]["equations"])
-    return [(req_q, rep_q), (req_e, rep_e)]
+    out = [(req_q, rep_q), (req_e, rep_e)]
+    # the composed round trip: fromPortable (toPortable m) in the model vs from_portable(to_portable(m)) on the real code
+    import irispie as ir
+    nq = len(inv.quantities)
+    fl = "".join("1" if b else "0" for b in (m.is_linear, m.is_flat, m.is_deterministic))
+    es = "@".join(f"{ek[d.kind.name]};{d.human};{s.human}" for d, s in zip(inv.dynamic_equations, inv.steady_equations))
+    vs = "@".join(",".join(H.rat(v.levels[q]) for q in range(nq)) + ";" + ",".join(H.rat(v.changes[q]) for q in range(nq)) for v in m._variants)
+    req = f"port rt {fl} {H.rat(inv.tolerance['eigenvalue'])} " + ",".join(qs) + " " + es + " " + vs
+    try:
+        m2 = ir.Simultaneous.from_portable(p)
+        i2 = m2._invariant
+        n2 = len(i2.quantities)
+        rep = ("ok " + ",".join(f"{q.human}~{H.KCH[q.kind]}~{'-' if q.logly is None else ('T' if q.logly else 'F')}" for q in i2.quantities)
+               + " " + "@".join(f"{ek[d.kind.name]};{d.human};{s.human}" for d, s in zip(i2.dynamic_equations, i2.steady_equations))
+               + " " + "".join("T" if b else "F" for b in (m2.is_linear, m2.is_flat, m2.is_deterministic))
+               + " " + "@".join(",".join(H.rat(v.levels[q]) for q in range(n2)) + ";" + ",".join(H.rat(v.changes[q]) for q in range(n2)) for v in m2._variants))
+    except Exception as e:
+        rep = "err:" + type(e).__name__
+    out.append((req, rep))
+    return out
